@@ -166,11 +166,16 @@ def spec_blank(text, comments):
 # Layout generation
 
 COMMENT_WORDS = ['x', 'todo', 'OCTET', 'STRING', 'END', '"', "'", 'a-b', '- ', '* ', '/ ', '::=', '{', '}', 'é',
-                 '""', 'BEGIN', ',', '1..2', '"unbalanced', '-', '*', '/']
+                 '""', 'BEGIN', ',', '1..2', '"unbalanced', '-', '*', '/',
+                 # characters Python's str.isspace()/\s accept but pyparsing does not skip
+                 '\xa0', '\u2028', '\u3000', '\x85', '\t', 'a\xa0b']
+# VT and FF end a one-line comment in X.680 (known finding x680-vt-ff-cr): block comments only
+BLOCK_ONLY_WORDS = ['\x0c', '\x0b', 'a\x0cb', '\x1c', '\x1f']
 
 
 def _comment_body(rng, kind):
-    words = [rng.choice(COMMENT_WORDS) for _ in range(rng.randrange(0, 5))]
+    pool_ = COMMENT_WORDS + (BLOCK_ONLY_WORDS if kind == 'block' else [])
+    words = [rng.choice(pool_) for _ in range(rng.randrange(0, 5))]
     body = ' '.join(words)
     # the body must not contain a delimiter of its own kind
     while '--' in body:
